@@ -492,7 +492,7 @@ def run(ctx) -> None:
         harness.reset_transport_globals()
 
         async def go(loop, h=h, stack=stack, eavesdrop=eavesdrop, trial=trial):
-            with clocks_patched(entity_dt=(stack == "port")):
+            with clocks_patched(entity_dt=(stack == "port")), harness.on_demand_write_spacer():
                 await run_history(loop, ctx, h, stack, eavesdrop, trial)
 
         try:
@@ -517,7 +517,7 @@ def replay(data: dict[str, Any]) -> int:
         harness.reset_transport_globals()
 
         async def go(loop, lines=lines, meta=meta, ctx=ctx):
-            with clocks_patched(entity_dt=(meta["stack"] == "port")):
+            with clocks_patched(entity_dt=(meta["stack"] == "port")), harness.on_demand_write_spacer():
                 lists = meta.get("lists") or {"mode": "none", "known_list": {}, "block_list": {}}
                 cfg = {"disable_discovery": True, "enable_eavesdrop": meta["eavesdrop"]}
                 if lists["mode"] == "full+hgi+enforced":
